@@ -24,25 +24,86 @@ Proof.
   intros S A f g l s H. unfold fold_res. apply fold_left_ext2. intros r a. destruct r; simpl; [apply H|reflexivity|reflexivity].
 Qed.
 
-(* `skipped := true; for _, w := range ws { if node == w { skipped = false; break } }` *)
-Lemma brk_loop_stays : forall node ws (s : bool),
-  fold_left (fun (st_ : bool * bool) w => let '(skipped, brk) := st_ in
-               if brk then st_ else if key_eqb node w then (false, true) else (skipped, brk)) ws (s, true) = (s, true).
-Proof. intros node ws s; induction ws as [|w ws IH]; simpl; [reflexivity|exact IH]. Qed.
+(* the search loop `flag := s0; for _, w := range ws { if node == w { flag = v; break } }`, with or without the
+   break, whichever way round the comparison is written: flag = v iff node is among ws *)
+Lemma brk_loop_stays : forall (c : key -> bool) (v : bool) ws (s : bool),
+  fold_left (fun (st_ : bool * bool) w => let '(flag, brk) := st_ in
+               if brk then st_ else if c w then (v, true) else (flag, brk)) ws (s, true) = (s, true).
+Proof. intros c v ws s; induction ws as [|w ws IH]; simpl; [reflexivity|exact IH]. Qed.
 
-Lemma brk_loop : forall node ws,
-  fold_left (fun (st_ : bool * bool) w => let '(skipped, brk) := st_ in
-               if brk then st_ else if key_eqb node w then (false, true) else (skipped, brk)) ws (true, false)
-  = (negb (memb node ws), memb node ws).
+Lemma brk_loop_gen : forall (c : key -> bool) node (v s0 : bool) ws,
+  (forall w, c w = N.eqb node w) ->
+  fold_left (fun (st_ : bool * bool) w => let '(flag, brk) := st_ in
+               if brk then st_ else if c w then (v, true) else (flag, brk)) ws (s0, false)
+  = (if memb node ws then v else s0, memb node ws).
 Proof.
-  intros node ws; induction ws as [|w ws IH]; simpl; [reflexivity|].
-  unfold key_eqb. destruct (N.eqb node w); simpl; [apply brk_loop_stays|exact IH].
+  intros c node v s0 ws Hc; induction ws as [|w ws IH]; simpl; [reflexivity|].
+  rewrite Hc. destruct (N.eqb node w); simpl; [apply brk_loop_stays|exact IH].
+Qed.
+
+Lemma brk_loop : forall node (v s0 : bool) ws,
+  fold_left (fun (st_ : bool * bool) w => let '(flag, brk) := st_ in
+               if brk then st_ else if key_eqb node w then (v, true) else (flag, brk)) ws (s0, false)
+  = (if memb node ws then v else s0, memb node ws).
+Proof. intros; apply brk_loop_gen with (c := fun w => key_eqb node w). reflexivity. Qed.
+
+Lemma brk_loop_sym : forall node (v s0 : bool) ws,
+  fold_left (fun (st_ : bool * bool) w => let '(flag, brk) := st_ in
+               if brk then st_ else if key_eqb w node then (v, true) else (flag, brk)) ws (s0, false)
+  = (if memb node ws then v else s0, memb node ws).
+Proof. intros; apply brk_loop_gen with (c := fun w => key_eqb w node). intros w; unfold key_eqb; apply N.eqb_sym. Qed.
+
+Lemma nobrk_loop_gen : forall (c : key -> bool) node (v s0 : bool) ws,
+  (forall w, c w = N.eqb node w) ->
+  fold_left (fun (flag : bool) w => if c w then v else flag) ws s0
+  = (if memb node ws then v else if memb node ws then v else s0).
+Proof.
+  intros c node v s0 ws Hc. revert s0; induction ws as [|w ws IH]; intros s0; simpl; [reflexivity|].
+  rewrite Hc, IH. destruct (N.eqb node w); simpl; [|reflexivity].
+  destruct (memb node ws); reflexivity.
+Qed.
+
+Lemma nobrk_loop : forall node (v s0 : bool) ws,
+  fold_left (fun (flag : bool) w => if key_eqb node w then v else flag) ws s0 = (if memb node ws then v else s0).
+Proof.
+  intros. rewrite nobrk_loop_gen with (node := node) by reflexivity. destruct (memb node ws); reflexivity.
+Qed.
+
+Lemma nobrk_loop_sym : forall node (v s0 : bool) ws,
+  fold_left (fun (flag : bool) w => if key_eqb w node then v else flag) ws s0 = (if memb node ws then v else s0).
+Proof.
+  intros. rewrite nobrk_loop_gen with (node := node) by (intros w; unfold key_eqb; apply N.eqb_sym).
+  destruct (memb node ws); reflexivity.
 Qed.
 
 Lemma s_del_absent : forall k s, memb k s = false -> s_del k s = s.
 Proof.
   intros k s; induction s as [|x s IH]; simpl; intros H; [reflexivity|].
   apply orb_false_iff in H. destruct H as [H1 H2]. rewrite N.eqb_sym, H1. simpl. f_equal. apply IH, H2.
+Qed.
+
+(* the loops that delete keys from the candidate set, with or without the (redundant) presence test, in any order:
+   what stays are the candidates that are in none of the lists *)
+Lemma filter_filter : forall {A} (f g : A -> bool) l, filter f (filter g l) = filter (fun x => g x && f x) l.
+Proof.
+  intros A f g l; induction l as [|x l IH]; simpl; [reflexivity|].
+  destruct (g x); simpl; [destruct (f x); simpl; rewrite IH; reflexivity|exact IH].
+Qed.
+
+Lemma fold_del_filter : forall ks sk,
+  fold_left (fun (s : list key) k => s_del k s) ks sk = filter (fun x => negb (memb x ks)) sk.
+Proof.
+  intros ks; induction ks as [|k ks IH]; intros sk; simpl.
+  - induction sk as [|x sk IHs]; simpl; [reflexivity|]. f_equal. exact IHs.
+  - rewrite IH. unfold s_del. rewrite filter_filter. apply filter_ext. intros x.
+    unfold memb; simpl. destruct (N.eqb x k); reflexivity.
+Qed.
+
+Lemma fold_testdel_filter : forall ks sk,
+  fold_left (fun (s : list key) k => if s_has k s then s_del k s else s) ks sk = filter (fun x => negb (memb x ks)) sk.
+Proof.
+  intros ks sk. rewrite <- fold_del_filter. apply fold_left_ext2.
+  intros s k; unfold s_has; destruct (memb k s) eqn:E; [reflexivity|symmetry; apply s_del_absent, E].
 Qed.
 
 Lemma fold_snoc_id : forall {A} (l acc : list A), fold_left (fun (st_ : list A) x => st_ ++ [x]) l acc = acc ++ l.
@@ -80,15 +141,17 @@ Section A.
             [ destruct (branch_collect b (l_get zero_value i (l_set i v inp))) as [ws| |]
             | destruct (branch_invoke b (l_get zero_value i (l_set i v inp))) as [ws| |] ]; simpl; try reflexivity;
             do 2 f_equal; unfold add_unselected, s_elems; apply fold_left_ext2; intros sk0 node;
-            rewrite brk_loop; destruct (memb node ws); reflexivity)
+            first [rewrite brk_loop | rewrite brk_loop_sym | rewrite nobrk_loop | rewrite nobrk_loop_sym];
+            destruct (memb node ws); reflexivity)
     end.
     all: unfold s_empty.
     all: destruct (fold_res _ _ _) as [[[inp ret] sk]| |]; simpl; try reflexivity.
     all: rewrite fold_snoc_id; simpl; unfold s_elems, del_all.
-    all: replace (fold_left (fun (st_ : list key) selected => if s_has selected st_ then s_del selected st_ else st_) ret sk)
-           with (fold_left (fun sk0 k => s_del k sk0) ret sk);
-         [ reflexivity
-         | apply fold_left_ext2; intros s k; unfold s_has; destruct (memb k s) eqn:E; [reflexivity|apply s_del_absent, E] ].
+    all: rewrite ?fold_testdel_filter, ?fold_del_filter, ?filter_filter.
+    all: match goal with |- res_bind (report_branch _ _ (filter ?f ?l)) _ = res_bind (report_branch _ _ (filter ?g ?l)) _ =>
+           replace (filter f l) with (filter g l); [reflexivity|]
+         end.
+    all: apply filter_ext; intros x; destruct (memb x ret), (memb x controls); reflexivity.
   Qed.
 End A.
 
